@@ -49,8 +49,12 @@ import (
 //        in which the target has >=2 forms for some key, or an annotation addressed to another
 //        container / a look-alike key is present, are counted.
 //
-// Process-fatal errors (os.Exit, log.Fatal, runtime "fatal error": stack overflow, concurrent
-// map access, OOM) cannot be recovered in-process. Before a case is executed it is written to
+// Use a separate VERIF_WORK (and VERIF_OUT) per plugin and per job: current-case.json, current-step.txt
+// and (for memtierd) the run/cgroup/bin directories live directly below it.
+//
+// Process-fatal errors (os.Exit, runtime "fatal error": stack overflow, concurrent map access,
+// OOM) cannot be recovered in-process (a Fatal of the plugin's logrus logger is turned into a panic
+// through logrus' ExitFunc and reported like any other panic). Before a case is executed it is written to
 // $VERIF_WORK/current-case.json (witness format, usable as VERIF_REPLAY) and before every handler
 // call one line is appended to $VERIF_WORK/current-step.txt. $VERIF_OUT is written with
 // "done": false at start-up and rewritten with "done": true only at the very end. Symptom seen
